@@ -1,7 +1,7 @@
-"""C10 -- Removing rows leaves no references to them (K4: RefIndex.v)."""
+"""C10 -- Removing rows leaves no references to them (K4: Model/RefIndex.v)."""
 import copy
-import itertools
 import logging
+import random
 
 from harness import core
 
@@ -9,12 +9,37 @@ ID = 'C10'
 TITLE = 'Removing rows leaves no references to them'
 PROPS = ['Props/C10']
 DISABLED = True
-RULE = 'under construction'
-TRUSTED = []
-ASSUMPTIONS = []
-TECHNIQUE = ''
-LEVEL_TEXT = ''
-LEVEL_NOTE = ''
+RULE = ('(L1) random op sequences (set/unset/growto/copy_from_column/clear; right-type, wrong-type, out-of-range, '
+        'string-hack values) on REAL ReferenceColumn/ReferenceListColumn objects vs the model; (L2) every call the live '
+        'reference-column objects receive during random user-action histories (recorded by wrapping the column classes) '
+        'replayed by the model; (L3) every single-action record removal of those histories on a user table: the world '
+        'of columns of/targeting the table before, and the engine result after, vs the model of doBulkRemoveRecord; '
+        '(S) after every bundle: no data Ref/RefList cell of any table (metadata included) mentions a row removed by '
+        'the bundle, single removals filter exactly the removed ids in order, the reverse index of every live '
+        'column is exact.  Histories: documents with one-way, two-way and self references, record/column/table '
+        'removals (also through the metadata tables), Ref<->RefList switches; a separate stream adds ReplaceTableData. '
+        'A case is non-trivial when references exist / a removal hits a referenced row')
+TRUSTED = ['Model/RefIndex.v is hand-written; it is compared with the running code on every run at three levels '
+           '(column objects, recorded call traces of real histories, whole record removals), evaluated by vm_compute',
+           'ReferenceListColumn._clean_up_value on strings (json.loads / RecordList.from_repr) is an uninterpreted '
+           'function of the model (theorems hold for every such function); the harness tabulates it from the running code',
+           'that every removal path of useractions.py reaches doBulkRemoveRecord is established by the history oracle, '
+           'not by proof']
+ASSUMPTIONS = ['cell values are None, ints, lists of ints or strings (what column.convert yields for user-action input)',
+               'C10_removal assumes an exact reverse index for every column of the world (proved for every history of '
+               'set/unset/copy_from_column/growto on a new column; false after BaseColumn.clear, see known findings)']
+TECHNIQUE = ('Coq invariant proof over an executable model of the reference columns and their reverse index + three '
+             'levels of differential correspondence with the running code (vm_compute) + implementation oracles on histories')
+LEVEL_TEXT = ('Kernel-checked theorems, for all op sequences, worlds and removal histories: the reverse index '
+              '(ReferenceRelation.inverse_map) equals the reverse of the cells after any clear-free sequence of column '
+              'operations; with exact indexes doBulkRemoveRecord never fails and leaves every referring cell equal to the '
+              'old cell with exactly the removed ids filtered out in order ([] -> None, Ref -> 0), so no cell refers to a '
+              'removed row, and the hypotheses hold again afterwards. The two ways the unchanged code escapes this '
+              '(BaseColumn.clear keeps the relation; ReplaceTableData removes rows without cleanup) are proved as '
+              'counterexamples and reported as known findings.')
+LEVEL_NOTE = ('Trusted: Coq kernel, the hand-written model (validated differentially on every run), the string hack '
+              'as an uninterpreted function. The glue in useractions.py (which paths call the cleanup) is covered by the '
+              'history oracle only.')
 
 logging.disable(logging.CRITICAL)
 
@@ -34,7 +59,7 @@ def ops_cases(ctx):
   r = ctx.rng
   fx = k4.Fixture()
   cases, metas = [], []
-  n = ctx.n(500, 6000)
+  n = ctx.n(400, 6000)
   for i in range(n):
     kind = r.choice(['KRef', 'KRefList'])
     ops = k4.gen_ops(r, kind, r.choice([1, 2, 3, 4, 6, 8, 12]), with_clear=(i % 4 == 0))
@@ -54,19 +79,294 @@ def ops_cases(ctx):
               sample={'kind': kind, 'ops': repr(ops)[:300]} if i < 2 else None)
   check = ('fun c => match c with (k, tbl, ops, expected) => '
            'res_eqb col_eqb (run (hack_of tbl) k ops) expected end')
-  bad = ctx.run_cases('ops', IMPORTS, check, cases, shard=1500)
+  bad = ctx.run_cases('ops', IMPORTS, check, cases, shard=100)
   for i in bad[:5]:
     ctx.broken('correspondence:RefIndex.run differs from the real column on an op sequence',
                'kind=%s ops=%r' % metas[i])
 
 
+# ---------------------------------------------------------------------------------------------
+# histories: (L2) call traces, (L3) removal worlds, (S) oracles
+
+def single_removal(bundle):
+  """(table, rows) when the bundle is one [Bulk]RemoveRecord with plain positive ids, else None."""
+  if len(bundle) != 1:
+    return None
+  a = bundle[0]
+  if a[0] == 'RemoveRecord':
+    rows = [a[2]]
+  elif a[0] == 'BulkRemoveRecord':
+    rows = list(a[2])
+  else:
+    return None
+  if not all(type(x) is int and 0 <= x < 100000 for x in rows):
+    return None
+  return a[1], rows
+
+
+def explicit_ids(bundle, table_id, col_id):
+  """Row ids a user action of the bundle writes into table.col itself (a dangling id the user asked for)."""
+  out = set()
+
+  def walk(v):
+    if isinstance(v, (list, tuple)):
+      for x in v:
+        walk(x)
+    elif type(v) is int:
+      out.add(v)
+    elif isinstance(v, str):
+      out.update(int(tok) for tok in v.replace('[', ' ').replace(']', ' ').replace(',', ' ').split() if tok.isdigit())
+  for a in bundle:
+    if a[0] in ('AddRecord', 'UpdateRecord') and a[1] == table_id and col_id in (a[3] or {}):
+      walk(a[3][col_id])
+    elif a[0] in ('BulkAddRecord', 'BulkUpdateRecord', 'ReplaceTableData') and a[1] == table_id and col_id in (a[3] or {}):
+      walk(a[3][col_id])
+    elif a[0] in ('AddOrUpdateRecord', 'BulkAddOrUpdateRecord'):
+      walk(a[2:])
+  return out
+
+
+def cells_of(e):
+  """{(table, col): (target table id, kind, {row: value})} for every data Ref/RefList column (all tables)."""
+  k4 = K()
+  out = {}
+  for tid, cid, c in k4.ref_columns(e):
+    rows = e.tables[tid].row_ids
+    out[(tid, cid)] = (k4.target_id(c), k4.kind_of(c), {r: copy.copy(c.raw_get(r)) for r in rows})
+  return out
+
+
+def want_without(kind, v, removed):
+  if kind == 'KRef':
+    return 0 if (type(v) is int and v in removed) else v
+  if isinstance(v, list) and v and all(type(x) is int for x in v):
+    return [x for x in v if x not in removed] or None
+  return v
+
+
+class Oracle(object):
+  """The property's own checks on the IMPLEMENTATION, evaluated around every bundle of a history."""
+  def __init__(self, collect_worlds=False, internal=True):
+    self.issues = []          # (kind, what)
+    self.worlds = []          # (coq term, description) for (L3)
+    self.collect_worlds = collect_worlds
+    self.internal = internal  # also look at the reverse index of the live column objects
+    self.stats = {}
+
+  def bump(self, k):
+    self.stats[k] = self.stats.get(k, 0) + 1
+
+  def before(self, e, bundle):
+    k4 = K()
+    tok = {'rows': {t: set(e.tables[t].row_ids) for t in e.tables}, 'single': None, 'world': None}
+    if self.internal:
+      tok['stale'] = {(tid, cid) for tid, cid, c in k4.ref_columns(e, data_only=False) if k4.index_exact(c)}
+    sr = single_removal(bundle)
+    if sr and sr[0] in e.tables and not sr[0].startswith('_grist_'):
+      tok['single'] = sr
+      tok['cells'] = cells_of(e)
+      if self.collect_worlds:
+        try:
+          tok['world'] = k4.world_snapshot(e, sr[0])
+        except k4.Unrepresentable:
+          self.bump('world:unrepresentable')
+    return tok
+
+  def after(self, e, bundle, out, tok, history, exc):
+    k4 = K()
+    self.bump('bundles')
+    if tok['world'] is not None:
+      self.world_case(e, bundle, out, tok, exc)
+    if out is None:
+      self.bump('bundles_failed')
+      return None
+    replaced = {a[1]: set(a[2]) for a in bundle if a[0] == 'ReplaceTableData'}
+    now = {t: set(e.tables[t].row_ids) for t in e.tables}
+    removed = {t: rows - now.get(t, set()) for t, rows in tok['rows'].items()}
+    cols = k4.ref_columns(e)
+    # (i) no cell mentions a row removed by this bundle
+    for tid, cid, c in cols:
+      rm = removed.get(k4.target_id(c))
+      if not rm:
+        continue
+      self.bump('removal_seen_by_refcol')
+      expl = None
+      for r in e.tables[tid].row_ids:
+        for t in c._value_iterable(c.raw_get(r)):
+          if t in rm:
+            if expl is None:
+              expl = explicit_ids(bundle, tid, cid)
+            if t in expl:
+              continue
+            tgt = k4.target_id(c)
+            kind = ('replace_table_data_leaves_references'
+                    if tgt in replaced and t not in replaced[tgt] else 'dangling_reference')
+            self.issues.append((kind, '%s.%s[%d] still refers to %s row %d removed by %r' % (
+              tid, cid, r, tgt, t, bundle)))
+            return 'stop'
+    # (ii) a single record removal filters exactly the removed ids, in order, and touches nothing else
+    if tok['single']:
+      table_id, rows = tok['single']
+      rmset = set(rows)
+      hit = False
+      for (tid, cid), (tgt, kind, old) in tok['cells'].items():
+        if not (tid in e.tables and e.tables[tid].has_column(cid)):
+          continue
+        c = e.tables[tid].get_column(cid)
+        for r in e.tables[tid].row_ids:
+          want = want_without(kind, old.get(r), rmset) if tgt == table_id else old.get(r)
+          hit = hit or want != old.get(r)
+          if c.raw_get(r) != want or type(c.raw_get(r)) is not type(want):
+            self.issues.append(('removal_wrong_cell', 'after %r: %s.%s[%d] was %r, is %r, expected %r' % (
+              bundle, tid, cid, r, old.get(r), c.raw_get(r), want)))
+            return 'stop'
+      self.bump('single_removal_hit' if hit else 'single_removal_nohit')
+    # (iii) the reverse index of every live column is exact
+    if self.internal:
+      for tid, cid, c in k4.ref_columns(e, data_only=False):
+        d = k4.index_exact(c)
+        if d and (tid, cid) not in tok['stale']:
+          kind = 'stale_index_after_replace_table_data' if tid in replaced else 'stale_index'
+          self.issues.append((kind, 'after %r the reverse index of %s.%s is not the reverse of its cells: %s' % (
+            bundle, tid, cid, d)))
+          return 'stop'
+    return None
+
+  def world_case(self, e, bundle, out, tok, exc):
+    k4 = K()
+    before, names = tok['world']
+    table_id, rows = tok['single']
+    try:
+      if out is not None:
+        after, _ = k4.world_snapshot(e, table_id, names=names)
+        expected = '(Ok %s)' % after
+      else:
+        name = k4.enc_err(exc)
+        if name is None:
+          self.bump('world:other_exception')
+          return
+        expected = '(Err %s)' % name
+      self.worlds.append(('(%s, %s, %s)' % (before, k4.natlist(rows), expected),
+                          '%r on columns %r' % (bundle, names)))
+      self.bump('world:%s' % ('ok' if out is not None else 'err'))
+    except k4.Unrepresentable:
+      self.bump('world:unrepresentable')
+
+
+STREAMS = {
+  'main': dict(weights=None, undo_prob=0.12),
+  'replace': dict(weights={'replacedata': 9, 'rmrec': 12, 'refupd': 8}, undo_prob=0.0),
+}
+KNOWN_KINDS = ('replace_table_data_leaves_references', 'stale_index_after_replace_table_data')
+
+
+def run_pass(ctx, stream, n_hist, nb):
+  """Histories of one stream with the recorder and the oracle on; returns trace cases, world cases, issues."""
+  k4 = K()
+  from harness import k4hist
+  rec = k4.Recorder()
+  traces, worlds, issues = [], [], []
+  stats = {}
+  try:
+    for h in range(n_hist):
+      seed = ctx.rng.getrandbits(32)
+      orc = Oracle(collect_worlds=True)
+      e, history, gen = k4hist.run_history(random.Random(seed), nb, before_bundle=orc.before,
+                                           after_bundle=orc.after, **STREAMS[stream])
+      for k, v in list(orc.stats.items()) + [('gen:' + k, v) for k, v in gen.stats.items()]:
+        stats[k] = stats.get(k, 0) + v
+      for kind, what in orc.issues:
+        issues.append({'kind': kind, 'what': what, 'stream': stream, 'seed': seed, 'history': history})
+      worlds.extend(orc.worlds)
+      # (L2) the calls every live reference column received, replayed by the model
+      live = [(tid, cid, c) for tid, cid, c in k4.ref_columns(e, data_only=False) if hasattr(c, '_k4_ops')]
+      ctx.rng.shuffle(live)
+      for tid, cid, c in live[:ctx.n(4, 8)]:
+        ops = c._k4_ops
+        if len(ops) > 500:
+          stats['trace:too_long'] = stats.get('trace:too_long', 0) + 1
+          continue
+        try:
+          strs = [o[2] for o in ops if o[0] == 'set' and isinstance(o[2], str)]
+          term = '(%s, %s, %s, %s)' % (k4.kind_of(c), k4.hack_table(strs, k4.any_rl_column()),
+                                       core.coq_list([k4.enc_op(o) for o in ops]), k4.enc_col(c))
+        except k4.Unrepresentable:
+          stats['trace:unrepresentable'] = stats.get('trace:unrepresentable', 0) + 1
+          continue
+        traces.append((term, '%s.%s after %d calls (stream %s seed %d)' % (tid, cid, len(ops), stream, seed),
+                       any(c._relation.inverse_map.values()), len(ops)))
+  finally:
+    rec.close()
+  return {'traces': traces, 'worlds': worlds, 'issues': issues, 'stats': stats}
+
+
+def passes(ctx):
+  if not hasattr(ctx, '_c10_passes'):
+    ctx._c10_passes = {
+      'main': run_pass(ctx, 'main', ctx.n(30, 500), ctx.n(12, 16)),
+      'replace': run_pass(ctx, 'replace', ctx.n(8, 120), ctx.n(10, 12)),
+    }
+    ctx.log('histories done')
+    for name, p in ctx._c10_passes.items():
+      for k, v in sorted(p['stats'].items()):
+        ctx.bump('%s:%s' % (name, k), v)
+  return ctx._c10_passes
+
+
 def correspond(ctx):
   ops_cases(ctx)
+  ps = passes(ctx)
+  traces = ps['main']['traces'] + ps['replace']['traces']
+  for term, what, nontrivial, n in traces:
+    ctx.count(('trace', what), nontrivial=nontrivial, kind='trace:calls<=%d' % (10 if n <= 10 else 50 if n <= 50 else 500))
+  check = ('fun c => match c with (k, tbl, ops, expected) => '
+           'res_eqb col_eqb (run (hack_of tbl) k ops) (Ok expected) end')
+  bad = ctx.run_cases('traces', IMPORTS, check, [t[0] for t in traces], shard=60, timeout=600)
+  ctx.log("traces done")
+  for i in bad[:5]:
+    ctx.broken('correspondence:the calls a real column received, replayed by RefIndex.run, give another state',
+               traces[i][1])
+  worlds = ps['main']['worlds'] + ps['replace']['worlds']
+  for term, what in worlds:
+    ctx.count(('world', term), nontrivial=True, kind='world')
+  check = ('fun c => match c with (wd, removed, expected) => '
+           'res_eqb world_eqb (remove_rows (hack_of []) wd removed) expected end')
+  bad = ctx.run_cases('worlds', IMPORTS, check, [w[0] for w in worlds], shard=300, timeout=600)
+  for i in bad[:5]:
+    ctx.broken('correspondence:RefIndex.remove_rows differs from the engine on a record removal', worlds[i][1])
 
 
 def search(ctx):
-  pass
+  ps = passes(ctx)
+  seen = set()
+  for name in ('main', 'replace'):
+    for iss in ps[name]['issues']:
+      if iss['kind'] in seen and iss['kind'] in KNOWN_KINDS:
+        continue
+      seen.add(iss['kind'])
+      hist = shrink(iss['history'], iss['kind']) if iss['kind'] not in KNOWN_KINDS else iss['history']
+      ctx.violation(iss['kind'], iss['what'], {'history': hist, 'kind': iss['kind'], 'seed': iss['seed'],
+                                               'stream': iss['stream']})
+
+
+def first_issue(history, kind=None, internal=True):
+  from harness import k4hist
+  orc = Oracle(collect_worlds=False, internal=internal)
+  k4hist.replay_history(history, before_bundle=orc.before, after_bundle=orc.after)
+  for k, what in orc.issues:
+    if kind is None or k == kind:
+      return k, what
+  return None
+
+
+def shrink(history, kind):
+  from harness import histgen
+  try:
+    return histgen.shrink_list(history, lambda h: first_issue(h, kind) is not None, max_steps=60)
+  except Exception:      # pylint: disable=broad-except
+    return history
 
 
 def replay(ctx, w):
-  return None
+  got = first_issue(w['history'], w.get('kind'), internal=not w.get('visible_only'))
+  return got[1] if got else None
